@@ -285,7 +285,7 @@ func c13Batch(job *c13Job, mark func(fi, ci int)) *c13Out {
 				logf("%s decoder, %s: rejected=%v", dn, c.label, o.err != nil)
 			}
 			if o.alloc > recycleAlloc {
-				out.Counters["probe.child-recycled-after-GiB-allocation"]++
+				out.Counters["probe.child-recycled-after-large-allocation"]++
 				out.Fi, out.Ci = fi, ci+1
 				return out
 			}
